@@ -141,7 +141,8 @@ def device_component_part(ck, tier, rng):
         hs.append([({}, ({} if v == "omit" else {1: v}), None) for v in seq])
     for _ in range(400 if tier == "quick" else 5000):
         hs.append(clevel.gen_history(rng))
-    runs = [clevel.run_dc(h) for h in hs]
+    # every other history with its updates in pairs at one instant
+    runs = [clevel.run_dc(h, same_time=(i % 2 == 1)) for i, h in enumerate(hs)]
     terms = [clevel.render_dc(h, o, n) for h, (o, n) in zip(hs, runs)]
     bad = run_shards(ck.pid + "_dc", "From TV Require Import Base Model.Wiring Model.Component.", "dc_case", "check_dc",
                      terms, shard_size=500)
@@ -157,7 +158,7 @@ def device_component_part(ck, tier, rng):
             if code not in done:
                 done.add(code)
                 ck.report(names[code], f"DeviceComponent.on_tick: {names[code]}",
-                          dict(kind="device_component", history=hs[i], observed=runs[i][0], notifications=runs[i][1], codes=bad[i]))
+                          dict(kind="device_component", history=hs[i], same_time=(i % 2 == 1), observed=runs[i][0], notifications=runs[i][1], codes=bad[i]))
 
 
 def main_T(pid, tier, seed, prop_codes, prop_mod, serving_files, what, with_dc=False, extra=None):
@@ -212,7 +213,7 @@ def replay_T(rp):
     if rp.get("kind") == "device_component":
         import clevel
         h = [({int(k): v for k, v in c.items()}, {int(k): v for k, v in o.items()}, ca) for c, o, ca in rp["history"]]
-        o, n = clevel.run_dc(h)
+        o, n = clevel.run_dc(h, same_time=rp.get("same_time", False))
         bad = run_shards("replay", "From TV Require Import Base Model.Wiring Model.Component.", "dc_case", "check_dc",
                          [clevel.render_dc(h, o, n)])
         print("history:", h)
